@@ -86,6 +86,13 @@ Theorem C10_harness_oracles_are_permutations : perm_family sigma_rank.
 Proof. exact sigma_rank_perm. Qed.
 Print Assumptions C10_harness_oracles_are_permutations.
 
+(* ... and they reach every iteration order: the order [l'] of a set with elements [l] is what [sigma_rank l'] yields, so when
+   the correspondence finds no rank list explaining an output, no iteration order explains it *)
+Theorem C10_harness_oracles_reach_every_order : forall l l',
+  NoDup l' -> Permutation l' l -> sigma_rank l' l = l'.
+Proof. exact sigma_rank_complete. Qed.
+Print Assumptions C10_harness_oracles_reach_every_order.
+
 (* ---------------------------------------------------------------- only the ORDER can vary *)
 Theorem C10_result_is_permutation : forall s1 s2 c,
   perm_oracle s1 -> perm_oracle s2 -> Permutation (promote s1 c) (promote s2 c).
